@@ -204,10 +204,16 @@ def random_observations(seed: int, matrices: list, seeds_per: int) -> list[dict]
         for s in range(seeds_per):
             sd = seed * 100003 + k * 131 + s
             A = Random()
-            torch.manual_seed(sd)
-            w = A.weighting(Jt)
-            torch.manual_seed(sd)
-            out = A(Jt)
+            try:
+                torch.manual_seed(sd)
+                w = A.weighting(Jt)
+                torch.manual_seed(sd)
+                out = A(Jt)
+            except Exception as e:                               # noqa: BLE001  the code under test raised: an
+                eps.append({"ep": len(eps) + 1, "m": m, "pos": [False] * m, "ulps": 10 ** 6, "comb": False,   # observation
+                            "fresh": False, "J": J, "seed": sd, "raised": f"{type(e).__name__}: {str(e)[:120]}"})  # the spec rejects
+                prev = None
+                continue
             wl = w.tolist()
             ulps = abs(math.fsum(wl) - 1.0) / EPS64
             ep = {"ep": len(eps) + 1, "m": m, "pos": [bool(x > 0.0) for x in wl],
